@@ -50,6 +50,17 @@ fn leaf_der(pem: &str) -> Option<Vec<u8>> {
     first.and_then(|c| c.ok()).map(|c| c.as_ref().to_vec())
 }
 
+thread_local! {
+    /// (reloader, successful reloads, get_last_reload()) at the previous observation of this run
+    static LAST: std::cell::RefCell<(usize, u64, Option<std::time::Instant>)> = std::cell::RefCell::new((0, 0, None));
+}
+
+fn not_after_of(der: &[u8]) -> Option<i64> {
+    use x509_parser::prelude::*;
+    let (_, c) = X509Certificate::from_der(der).ok()?;
+    Some(c.validity().not_after.timestamp())
+}
+
 fn serial_of(der: &[u8]) -> Option<String> {
     use x509_parser::prelude::*;
     let (_, c) = X509Certificate::from_der(der).ok()?;
@@ -141,7 +152,7 @@ impl Check for C18 {
         shrink_array(plan, "/steps", 1)
     }
     fn rule(&self) -> &'static str {
-        "one case = a history of 3-14 steps on real certificate/key files in a scratch directory: replace both files (either order; with a reload or a crash between the two writes), replace one file only, truncate a file at offset k (k enumerated by the run index over both files), garbage, delete, chain of two, certificates minted at run time to expire {-10y,-2d,-25h,-23h,-1h,-5s,+1h,+10y} from now, a change of the certificate file between the two reads inside reload() (fault point), plain reload; after every step a fresh TLS handshake against get_acceptor() and (half of the cases) against a real Server::listen built on the reloadable acceptor must present exactly the model's active leaf, get_cert_info() and get_reload_count() must equal the model's, and a TLS session established before the history keeps echoing; every case is non-trivial; distinct = distinct (plan hash, poll-order fingerprint)"
+        "one case = a history of 3-14 steps on real certificate/key files in a scratch directory: replace both files (either order; with a reload or a crash between the two writes), replace one file only, truncate a file at offset k (k enumerated by the run index over both files), garbage, delete, chain of two, certificates minted at run time to expire {-10y,-2d,-25h,-23h,-1h,-5s,+1h,+10y} from now, a change of the certificate file between the two reads inside reload() (fault point), plain reload; after every step a fresh TLS handshake against get_acceptor() and (half of the cases) against a real Server::listen built on the reloadable acceptor must present exactly the model's active leaf, get_cert_info() (serial and validity end) and get_reload_count() must equal the model's, get_last_reload() may only move with a successful reload, and a TLS session established before the history keeps echoing; every case is non-trivial; distinct = distinct (plan hash, poll-order fingerprint)"
     }
     fn real_components(&self) -> Vec<&'static str> {
         vec!["CertReloader::new / reload / get_acceptor / get_acceptor_ref / get_cert_info / get_reload_count", "create_server_config_from_files", "CertificateInfo::from_pem_file / is_expired", "Server::new_with_reloadable_tls + Server::listen (per-accept snapshot)", "rustls handshakes (real)"]
@@ -229,6 +240,7 @@ async fn run_case(plan: &Value) -> Outcome {
     files.write("cert", a_cert.as_bytes());
     files.write("key", a_key.as_bytes());
     let cfg = CertReloaderConfig { cert_path: files.cert(), key_path: files.key(), watch_enabled: false, debounce_ms: 0, check_expiry: true, expiry_warning_days: 30 };
+    LAST.with(|l| *l.borrow_mut() = (0, 0, None));
     let reloader = match CertReloader::new(cfg) {
         Ok(r) => Arc::new(r),
         Err(e) => {
@@ -468,6 +480,30 @@ async fn check_state(reloader: &Arc<CertReloader>, active_leaf: &[u8], count: u6
     let want_serial = serial_of(active_leaf);
     if info.as_ref().map(|i| i.serial_number.clone()) != want_serial {
         out.viol("info-mismatch", format!("reported-info-describes-other-certificate:{}", kind), format!("step {} ({}): get_cert_info() reports serial {:?}, the certificate being served has serial {:?}", si, label, info.map(|i| i.serial_number), want_serial));
+    }
+    // the rest of what operators are told: validity end of the active leaf, and the instant of the last successful
+    // reload, which a step that did not reload successfully must leave exactly as it was
+    if let (Some(i), Some(na)) = (reloader.get_cert_info(), not_after_of(active_leaf)) {
+        let got = i.not_after.duration_since(std::time::UNIX_EPOCH).map(|d| d.as_secs() as i64).unwrap_or(-1);
+        if got != na {
+            out.viol("info-mismatch", format!("reported-validity-describes-other-certificate:{}", kind), format!("step {} ({}): get_cert_info() reports a validity end of {} (unix s), the certificate being served ends at {}", si, label, got, na));
+        }
+    }
+    {
+        let me = Arc::as_ptr(reloader) as usize;
+        let now = reloader.get_last_reload();
+        LAST.with(|l| {
+            let mut l = l.borrow_mut();
+            if l.0 == me && si > 0 {
+                if l.1 == count && l.2 != now {
+                    out.viol("counter", format!("last-reload-instant-changed-without-reload:{}", kind), format!("step {} ({}): no successful reload since the previous step, yet get_last_reload() changed", si, label));
+                }
+                if count > l.1 && now.is_none() {
+                    out.viol("counter", format!("last-reload-instant-missing:{}", kind), format!("step {} ({}): a reload succeeded but get_last_reload() is None", si, label));
+                }
+            }
+            *l = (me, count, now);
+        });
     }
     if reloader.get_reload_count() != count {
         out.viol("counter", format!("reload-count:{}", kind), format!("step {} ({}): get_reload_count() = {}, successful reloads so far = {}", si, label, reloader.get_reload_count(), count));
